@@ -171,8 +171,10 @@ pub fn run_c11(ctx: &mut Ctx) {
             // without extensions, and with one extension set on each side (rotating)
             let combos: [(usize, usize); 4] = [(0, 0), (1 + i % 2, 0), (0, 1 + unit % 3), (3, 2)];
             for (ea, eb) in combos {
-                let la: Locale = format!("{}{}", a, exts[ea]).parse().unwrap();
-                let lb: Locale = format!("{}{}", b, exts[eb]).parse().unwrap();
+                let (Ok(la), Ok(lb)) = (format!("{}{}", a, exts[ea]).parse::<Locale>(), format!("{}{}", b, exts[eb]).parse::<Locale>()) else {
+                    ctx.count("setup: well-formed locale rejected by the library (pair skipped)");
+                    continue;
+                };
                 ctx.count(if ea == 0 && eb == 0 { "product:plain" } else { "product:with-extensions" });
                 if ctx.wants_sample("product") && la.id != lb.id && la.id.matches(&lb.id, true, false) {
                     ctx.sample("product", || json!({"a": la.to_string(), "b": lb.to_string(), "matches(true,false)": true}));
@@ -295,14 +297,14 @@ fn reroute(l: &Locale, r: &mut Rng) -> (Locale, &'static str) {
                 let _ = m.extensions.unicode.set_attribute(a);
             }
             for k in l.extensions.unicode.keyword_keys().collect::<Vec<_>>().into_iter().rev() {
-                let vals: Vec<&str> = l.extensions.unicode.keyword(k).unwrap().collect();
+                let vals: Vec<&str> = l.extensions.unicode.keyword(k).map(|i| i.collect()).unwrap_or_default();
                 let _ = m.extensions.unicode.set_keyword(k, &vals);
             }
             if let Some(t) = l.extensions.transform.tlang() {
                 let _ = m.extensions.transform.set_tlang(t.clone());
             }
             for k in l.extensions.transform.tfield_keys().collect::<Vec<_>>().into_iter().rev() {
-                let vals: Vec<&str> = l.extensions.transform.tfield(k).unwrap().collect();
+                let vals: Vec<&str> = l.extensions.transform.tfield(k).map(|i| i.collect()).unwrap_or_default();
                 let _ = m.extensions.transform.set_tfield(k, &vals);
             }
             for t in l.extensions.private.tags().collect::<Vec<_>>().into_iter().rev() {
